@@ -14,7 +14,15 @@ def value_key(body, op_or_place):
     if o[0] == "arg":
         return ("arg", o[1])
     if o[0] == "field":
-        return ("field", o[1])
+        pl = o[1]
+        if isinstance(pl, tuple) and len(pl) == 2 and isinstance(pl[0], int):
+            # through reborrows (`&*self` handed to a spliced helper): the same field of the same object
+            for _ in range(4):
+                n2 = _norm(body, (pl[0], tuple(pl[1])))
+                if n2 == pl:
+                    break
+                pl = n2
+        return ("field", pl)
     if o[0] == "call":
         return ("call", o[1])
     return None
@@ -832,6 +840,71 @@ def position_index_guard(body, bb, t):
     if mutated_between(body, rk, cb, bb):
         return None
     return f"index {form} where i is the position() hit on the same, unmodified collection (i < len)"
+
+
+def insert_slot_guard(body, bb, t):
+    """Vec::insert(v, i, x) with i = `position(..).unwrap_or(v.len())` (or the position hit itself) over the same,
+    unmodified v: i <= len"""
+    recv, idx = t["args"][0], t["args"][1]
+    rk = value_key(body, recv)
+    if rk is None:
+        return None
+    k, cb = _search_origin(body, idx, ("position", "rposition"))
+    if k is not None and k == rk and not mutated_between(body, rk, cb, bb):
+        return "insert at the position() hit on the same, unmodified Vec (i < len)"
+    o = R.origin(body, idx, carriers={})
+    if o[0] == "call" and "fn" in o[2] and Callee(o[2]["fn"]).path.split("::")[-1] in ("unwrap_or", "unwrap_or_else") and len(o[2]["args"]) == 2:
+        k, cb = _search_origin(body, o[2]["args"][0], ("position", "rposition"))
+        lk, kind = _len_subject(body, o[2]["args"][1])
+        if lk is None:
+            cid = R.closure_id_of_operand(body, o[2]["args"][1])
+            lk, kind = (rk, "len") if cid is not None and _closure_returns_len_of(body, cid, rk) else (None, None)
+        if k is not None and k == rk and lk == rk and kind == "len" and not mutated_between(body, rk, cb, bb):
+            return "insert at `position(..).unwrap_or(len)` of the same, unmodified Vec (i <= len)"
+    return None
+
+
+def _closure_returns_len_of(body, cid, rk):
+    return False  # `unwrap_or_else(|| v.len())`: not needed so far
+
+
+def closure_param_index_guard(prog, body, bb, t, kind):
+    """`opt.map(|i| v[i])` / `.map(|i| v.remove(i))`: the index is the closure's parameter, the closure is handed to
+    Option::map / and_then / map_or / is_some_and on the position() hit over the same collection in the enclosing
+    function, and nothing else calls it"""
+    if body.kind != "Closure" or body.root is None or body.root not in prog.bodies:
+        return None
+    idx = t["args"][1]
+    o = R.origin(body, idx, carriers={})
+    if o[0] != "arg" or o[1] != 2 or body.argc != 2:
+        return None
+    # the collection inside the closure: a field of a captured reference, or the captured reference itself
+    recv = R.origin(body, t["args"][0], carriers={"deref": 0, "deref_mut": 0})
+    fld = None
+    if recv[0] == "field" and recv[1][1]:
+        named = [x for x in recv[1][1] if isinstance(x, str) and x.startswith(".") and not x[1:].isdigit()]
+        fld = named[-1] if named else None
+    parent = prog.bodies[body.root]
+    for (pb, pt, pc) in parent.call_sites(lambda c: c.path.startswith("std::option::Option::<T>::") and c.path.split("::")[-1] in ("map", "and_then", "map_or", "map_or_else", "is_some_and", "inspect")):
+        cids = [R.closure_id_of_operand(parent, a) for a in pt["args"][1:]]
+        if body.id not in cids:
+            continue
+        k, cb = _search_origin(parent, pt["args"][0], ("position", "rposition"))
+        if k is None or k[0] != "field":
+            return None
+        kp = k[1]
+        named = [x for x in (kp[1] if isinstance(kp, tuple) and len(kp) == 2 else ()) if isinstance(x, str) and x.startswith(".") and not x[1:].isdigit()]
+        if fld is not None and named and named[-1] == fld and not mutated_between(parent, k, cb, pb):
+            return f"the index is the parameter of a closure applied to the position() hit over `{fld[1:]}` of the same object (i < len)"
+        if fld is None and recv[0] == "arg":
+            # the collection itself is captured by reference (`|i| attrs.remove(i)` captures `&mut self.attrs`): one of
+            # the values the closure is built from is a reference to the searched collection
+            ch = parent.chase([a for a in pt["args"][1:] if R.closure_id_of_operand(parent, a) == body.id][0])
+            if ch[0] == "rv" and ch[1].get("k") == "aggr":
+                caps = [value_key(parent, o_) for o_ in ch[1].get("ops", [])]
+                if k in caps and len([c_ for c_ in caps if c_ == k]) == 1 and not mutated_between(parent, k, cb, pb):
+                    return "the index is the parameter of a closure applied to the position() hit over the collection the closure captures (i < len)"
+    return None
 
 
 def len_fraction_guard(body, bb, t):
